@@ -1,4 +1,5 @@
 import PacketVerif.Model.Icmp6Hunt
+import PacketVerif.Model.Icmp6Frame
 import PacketVerif.Drv.Ndp
 import PacketVerif.Drv.Accept
 namespace PV.Drv.Icmp6Hunt
@@ -11,6 +12,9 @@ open PV PV.Model.Ndp PV.Model.Icmp6Hunt PV.Drv.Accept
         `<ra>` = `<repeat>/<hostKnown 0|1>/<ether src>/<ip src>/<icmp6 payload>` (`repeat` = value of the
         process-global counter set before the packet).
         → `res=<0|1>* def=<ip|-> routers=<ip>@<mac>@<hdr>@<options>;…` (sorted by ip)
+  `nd.frame <hostMAC> <routerMAC> <lanAddr> <lanBits> <repeat> <frame>`  function mode over RAW frames: Parse,
+        dispatch on PayloadICMP6, Handler6.ProcessPacket of a fresh handler (`repeat` set before)
+        → `perr=<0|1> pid=<n> ret=<-|nil|Err…|other> def=<ip|-> routers=… | ra=<RaIn read off the frame|->`
   `nd.trace [scn=…] <event>*`  trace acceptance of one handler's real-time run:
           Sc<k>:<mac>:<cls n|4|l|g>   StartHunt called         Sr<k>:<e|n|h>   … returned (ErrInvalidIP | no change | hunt)
           Xc<k>:<mac>:<eff 0|1>       StopHunt called          Xr<k>
@@ -220,8 +224,42 @@ def machine : Machine AState Obs :=
   { key := AState.key, hidden := hidden, apply := applyObs, name := obsName,
     prep := fun a o => { a with tnext := o.t } }
 
+/-- raw-frame function mode: the composed `processFrame` on a fresh handler, and what ProcessPacket returns -/
+def frameLine (c : Model.Cfg) (rep : Int) (p : Bytes) : String :=
+  match Model.parse c p with
+  | .ok r =>
+    let perr := if r.err.isSome then 1 else 0
+    let dispatched := r.err.isNone ∧ r.frame.pid = Model.Pid.icmp6
+    let ret : String :=
+      if ¬ dispatched then "-"
+      else if r.frame.offIP6 = 0 then "ErrParseFrame"
+      else match sliceFrom p r.frame.offPayload with
+        | .ok pay =>
+          match icmp6Dispatch pay (r.frame.srcIP.all (· == 0)) r.frame.hostEv.isSome ((rep + 1) % 4 == 0) with
+          | .ok cl => ((Drv.Ndp.firstWord (Drv.Ndp.icmp6Proj cl)).drop 4).toString
+          | .err e => e.toString
+          | .panic => "panic"
+          | .hang => "hang"
+        | _ => "panic"
+    match Model.Icmp6Frame.processFrame c { rep := rep } p, Model.Icmp6Frame.raInOf c p with
+    | .ok (s, _), .ok ra =>
+      let ras := match ra with
+        | some x => s!"{toHex x.etherSrc}/{toHex x.ipSrc}/{if x.hostKnown then 1 else 0}/{toHex x.payload}"
+        | none => "-"
+      s!"perr={perr} pid={r.frame.pid} ret={ret} def={match s.defaultRouter with | some ip => toHex ip | none => "-"} routers={routersStr s} | ra={ras}"
+    | .panic, _ => "panic"
+    | .hang, _ => "hang"
+    | _, _ => "err"
+  | .panic => "panic"
+  | .hang => "hang"
+  | .err e => "err " ++ e.toString
+
 def handle (cmd : String) (args : List String) : Option String :=
   match cmd, args with
+  | "nd.frame", [hm, rm, la, lb, rep, h] => do
+    let hm ← fromHex hm; let rm ← fromHex rm; let la ← fromHex la; let lb ← lb.toNat?; let rep ← rep.toInt?
+    let b ← fromHex h
+    some (frameLine ⟨hm, rm, la, lb⟩ rep b)
   | "nd.ra", toks => do
     let ras ← toks.mapM parseRa
     match runRas {} "" ras with
